@@ -106,7 +106,7 @@ func (s *authSys) Apply(ev authEvent, check bool) (tainted bool) {
 	required := ociauth.ParseScope(ev.Required)
 	before := authSnapshot{issued: len(s.net.issued)}
 	for _, it := range s.net.issued {
-		if it.Host == ev.Host && !s.net.now.Add(2*time.Second).After(it.Issued.Add(it.Lifetime)) && it.Scope.Contains(required) {
+		if it.Host == ev.Host && !s.net.now.Add(2*time.Second).After(it.Issued.Add(it.Lifetime)) && setContains(it.Set, scopeSet(ev.Required)) {
 			before.mustReuse = true
 		}
 	}
@@ -255,11 +255,11 @@ func c10Monitor(s *authSys, ev authEvent, trip int, resp *http.Response, err err
 						viol("expired-token-sent", fmt.Sprintf("token unexpired when sent (issued +%v, lifetime %v)", it.Issued.Sub(authEpoch), it.Lifetime), fmt.Sprintf("sent at +%v", x.Time.Sub(authEpoch)))
 					}
 					if !tokenReqBefore {
-						if !it.Scope.Contains(required) {
+						if !setContains(it.Set, scopeSet(ev.Required)) {
 							viol("reused-token-does-not-cover-required-scope", "cached token scope covers "+required.Canonical().String(), it.Scope.Canonical().String())
 						}
 					} else if haveChallenge {
-						if cs := ociauth.ParseScope(lastChallenge); !it.Scope.Contains(cs) {
+						if cs := ociauth.ParseScope(lastChallenge); !setContains(it.Set, scopeSet(lastChallenge)) {
 							viol("fresh-token-does-not-cover-challenge-scope", "token scope covers the challenge scope "+cs.Canonical().String(), it.Scope.Canonical().String())
 						}
 					}
@@ -439,7 +439,7 @@ func c10RunBatch(r *vcore.Run, b c10Batch, bound int) vsched.Stats {
 					r.Violate("batch", "C10/batch/token-of-another-host", bb, x.Dest, it.Host)
 				case x.Time.After(it.Issued.Add(it.Lifetime)):
 					r.Violate("batch", "C10/batch/expired-token-sent", bb, "unexpired", tok)
-				case !tokenReq && !it.Scope.Contains(required):
+				case !tokenReq && !setContains(it.Set, scopeSet(ev.Required)):
 					r.Violate("batch", "C10/batch/reused-token-does-not-cover-required-scope", bb, required.Canonical().String(), it.Scope.Canonical().String()+" | "+trafficText(n, trip))
 				}
 			}
@@ -453,7 +453,7 @@ func c10RunBatch(r *vcore.Run, b c10Batch, bound int) vsched.Stats {
 			required := ociauth.ParseScope(ev.Required)
 			must := false
 			for _, it := range n.issued {
-				if it.Host == ev.Host && !n.now.Add(2*time.Second).After(it.Issued.Add(it.Lifetime)) && it.Scope.Contains(required) {
+				if it.Host == ev.Host && !n.now.Add(2*time.Second).After(it.Issued.Add(it.Lifetime)) && setContains(it.Set, scopeSet(ev.Required)) {
 					must = true
 				}
 			}
@@ -497,6 +497,14 @@ func c10Batches() []c10Batch {
 			c10Batch{Hosts: []*authHostCfg{cfg}, Prologue: []authEvent{pull}, Threads: []authEvent{pull, other}},
 			c10Batch{Hosts: []*authHostCfg{cfg}, Prologue: []authEvent{pull, {K: "tick", Dt: 1.5}}, Threads: []authEvent{pull, push}},
 			c10Batch{Hosts: []*authHostCfg{cfg}, Prologue: []authEvent{pull}, Threads: []authEvent{pull, push, other}},
+		)
+		// a token server that takes longer than the cached token still has to live: a request that waited
+		// for the other one's token acquisition must look at the clock again before reusing the cache
+		slow := *cfg
+		slow.TokenDelay = 2
+		out = append(out,
+			c10Batch{Hosts: []*authHostCfg{&slow}, Prologue: []authEvent{pull, {K: "tick", Dt: 0.5}}, Threads: []authEvent{pull, push}},
+			c10Batch{Hosts: []*authHostCfg{&slow}, Prologue: []authEvent{pull, {K: "tick", Dt: 0.5}}, Threads: []authEvent{pull, other}},
 		)
 	}
 	return out
@@ -568,6 +576,12 @@ func c10Events(cfgs []*authHostCfg, thorough bool) []authEvent {
 				evs = append(evs, authEvent{K: "req", Host: c.Host, Required: rq, Desired: "repository:x:push"})
 			}
 		}
+	}
+	// a token over three repositories, then a two-repository demand it does not cover (cross-repository mount)
+	for _, c := range cfgs {
+		evs = append(evs,
+			authEvent{K: "req", Host: c.Host, Required: "repository:x:pull", Desired: "repository:y:pull,push repository:z:pull"},
+			authEvent{K: "req", Host: c.Host, Required: "repository:y:pull repository:z:push"})
 	}
 	evs = append(evs, authEvent{K: "tick", Dt: 0.5}, authEvent{K: "tick", Dt: 1}, authEvent{K: "tick", Dt: 61})
 	if len(cfgs) == 1 && len(cfgs[0].LifetimePattern) > 0 {
@@ -650,7 +664,7 @@ func c10Check(r *vcore.Run) vcore.Coverage {
 		"the registry's demand for a request equals the request's required scope; challenge scopes come from the menu {exact, wider, narrower, unrelated, empty, unparsable}",
 		"lifetime omitted means the documented default of 60 s; the reuse obligation applies to tokens with at least 2 s of life left (the transport's own expiry margin is not part of the statement); a token is expired when now > issue + lifetime",
 		"time.Now inside ociauth is replaced by a virtual clock through the build overlay; nothing sleeps",
-		"concurrent batches: 10 harnesses of 2-3 threads issuing one RoundTrip each from a seeded state, all schedules within the preemption bound, scheduling points at the transport's mutexes / once and at the fake network; safety part of the monitor only (own, unexpired, sufficient token; <= 2 attempts)",
+		"concurrent batches: 14 harnesses (4 with a token server slower than the cached token's remaining life) of 2-3 threads issuing one RoundTrip each from a seeded state, all schedules within the preemption bound, scheduling points at the transport's mutexes / once and at the fake network; safety part of the monitor only (own, unexpired, sufficient token; <= 2 attempts)",
 	}
 	return vcore.Coverage{States: states, Transitions: trans, TracesImpl: trans, Evaluations: trans, Nontrivial: states, Exhaustive: exhaustive,
 		Rule: fmt.Sprintf("BFS to depth %d over event histories {request(host, required in 6 scopes, desired in 2), tick 0.5 s / 1 s / 61 s} for %d registry/token-server/credential configurations (challenge scope exact/wider/narrower/unrelated/empty/unparsable; token server grants / refuses over-wide / lacks POST; lifetimes omitted,1,2,3 s; credentials none/basic/refresh/static; one two-host configuration); state = reflective dump of the transport + issued tokens relative to the virtual clock; monitor on every forwarded request and token request", depth, len(c10Configs(r.Thorough())))}
